@@ -1,9 +1,12 @@
 // c03.cpp — the TBB-parallel entry points of parmcb, compiled UNCHANGED against the controllable fake TBB
 // (harness/shim/tbb, build_cpp(..., shim=True)) and executed under the schedule given in the case.
-//   T <alg> [k] <D|I> <scale> <nbits> <bitstring|-> <graph>
-//   X <alg> [k] <D|I> <scale> <nbits> <bitstring|-> <nperm> <perm...> <trace 0|1> <graph>
+//   T <alg> [k] <D|I|L> <scale> <nbits> <bitstring|-> <graph>
+//   X <alg> [k] <D|I|L> <scale> <nbits> <bitstring|-> <nperm> <perm...> <trace 0|1> <graph>
+//   G <alg> [k] <D|I|L> <scale> <nbits> <bitstring|-> <graph>       as T, without the ROOTS / EORD oracles (graphs with tens of thousands of
+//                                                                   vertices, judged against the property text only; EORD costs O(m^2) here)
 //       alg = signed_tbb | fvs_tbb | iso_tbb | approx_signed_tbb k | approx_fvs_tbb k | approx_iso_tbb k
-//       D = double weights w*2^scale, I = int weights; bitstring = nbits characters 0/1 = verif_sched::bits
+//       D = double weights w*2^scale, I = int weights, L = long long weights (64-bit integers, values above 2^53 included);
+//       bitstring = nbits characters 0/1 = verif_sched::bits
 //       perm = explicit insertion order of the concurrently pushed elements (verif_sched.h; empty = execution order)
 //   prints  ROOTS .. EORD .. RET w N n CYC (len ids)* SCHED pos splits forks seqs rfirst chunks fors reduces pushes permused
 //           [SEQRET w SEQN n SEQW sorted weights of the cycles of the sequential approximate entry point]
@@ -31,10 +34,10 @@ static std::vector<bool> read_bits(Toks &t) {
 }
 
 template<class G> void run_alg(const std::string &alg, size_t k, const std::vector<bool> &bits, const std::vector<size_t> &perm, bool trace,
-                               Toks &t, int scale, std::ostream &out) {
+                               Toks &t, int scale, std::ostream &out, bool oracles = true) {
     typedef typename boost::graph_traits<G>::edge_descriptor Edge;
     GCase<G> c; read_graph(t, c, scale);
-    print_oracles(out, c);
+    if (oracles) print_oracles(out, c); else out << "ROOTS EORD";
     std::list<std::list<Edge>> cycles, seqcycles;
     auto wm = boost::get(boost::edge_weight, c.g);
     typedef typename boost::property_traits<decltype(wm)>::value_type W;
@@ -71,7 +74,7 @@ template<class G> void run_alg(const std::string &alg, size_t k, const std::vect
 int main() {
     return run_cases([](Toks &t, std::ostream &out) {
         std::string kind = t.next();
-        if (kind != "T" && kind != "X") throw std::runtime_error("bad kind");
+        if (kind != "T" && kind != "X" && kind != "G") throw std::runtime_error("bad kind");
         std::string alg = t.next();
         size_t k = 0;
         if (alg.compare(0, 7, "approx_") == 0) k = t.next_sz();
@@ -79,6 +82,10 @@ int main() {
         std::vector<bool> bits = read_bits(t);
         std::vector<size_t> perm; bool trace = false;
         if (kind == "X") { perm = t.next_szlist(); trace = t.next_sz() != 0; }
-        if (ty == "D") run_alg<DGraph>(alg, k, bits, perm, trace, t, scale, out); else run_alg<IGraph>(alg, k, bits, perm, trace, t, 0, out);
+        const bool oracles = kind != "G";
+        if (ty == "D") run_alg<DGraph>(alg, k, bits, perm, trace, t, scale, out, oracles);
+        else if (ty == "L") run_alg<LGraph>(alg, k, bits, perm, trace, t, 0, out, oracles);
+        else if (ty == "I") run_alg<IGraph>(alg, k, bits, perm, trace, t, 0, out, oracles);
+        else throw std::runtime_error("bad weight type");
     });
 }
